@@ -78,7 +78,8 @@ PLAN = {
             "ops": ["CreateBucket", "PutVersioning", "PutObject", "CopyObject", "AppendObject", "CreateUpload", "UploadPart",
                     "CompleteUpload", "PutTagging", "Transition", "DeleteObject"]},
     "C14": {"stacks_quick": ["classes"], "stacks_thorough": ["classes"],
-            "gen": {"Classes": '{"none", "GLACIER", "STANDARD_IA"}', "Blobs": '{"c0", "c1", "c2", "c3"}', "MetaSets": '{"none", "1"}',
+            "gen": {"Classes": '{"none", "GLACIER", "STANDARD_IA", "DEEP_ARCHIVE"}', "Blobs": '{"c1", "c2"}',
+                    "OpBoost": '{"Transition", "AppendObject", "CopyObject"}', "BoostFactor": "1", "MetaSets": '{"none", "1"}',
                     "CTypes": '{"none", "t1"}'},
             "ops": ["CreateBucket", "PutVersioning", "PutObject", "GetObject", "DeleteObject", "CopyObject", "AppendObject",
                     "CreateUpload", "UploadPart", "UploadPartCopy", "CompleteUpload", "Transition", "Transition", "PutTagging"]},
@@ -153,6 +154,30 @@ def witness_programs(ctx):
                              "(%s) - the finding cannot be exercised" % (tag, r.outcome))
         out += [(tag, p) for p in progs[:2]]
     return out
+
+
+def situation_cover_programs(ctx, rnd, ops, n, maxclock, extra=None):
+    """Breadth-first situation cover (PithosGen.SitCover): the shortest program into every distinct SITUATION of a small
+    alphabet. Programs whose last call reuses a row that carries state (tags / metadata / class of a null version that
+    is being rewritten) are always kept; the rest is sampled by seed."""
+    subst = {"Ops": tla_set(ops), "MaxClock": str(maxclock)}
+    subst.update(extra or {})
+    r = ctx.tlc("PithosGen", "Pithos.SitCover.cfg", workers=8, timeout=900, subst=subst)
+    if not r.ok():
+        raise vlib.Infra("situation cover search failed: %s\n%s" % (r.outcome, r.output[-1500:]))
+    by = {}
+    for p in r.printed:
+        if isinstance(p, dict) and "sit" in p and (p["sit"] not in by or len(p["calls"]) < len(by[p["sit"]])):
+            by[p["sit"]] = p["calls"]
+    keys = sorted(by)
+    prio = [k for k in keys if "TRUE" in k.split('"", ')[-1] or "<<TRUE" in k or ", TRUE" in k]
+    rest = [k for k in keys if k not in set(prio)]
+    rnd.shuffle(rest)
+    chosen = (prio + rest)[:n] if len(prio) <= n else rnd.sample(prio, n)
+    ctx.log("situation cover: %d distinct situations (%d with reused/duplicate state), %d programs selected, %d states, %.1fs"
+            % (len(keys), len(prio), len(chosen), r.distinct, r.wall))
+    ctx.extra["situation_cover"] = {"situations": len(keys), "selected": len(chosen), "states": r.distinct}
+    return [by[k] for k in chosen]
 
 
 def cover_programs(ctx, rnd):
@@ -358,6 +383,45 @@ def run(ctx):
             ctx.traces += len(dd)
             ctx.evaluations += sum(len(p) for p in dd)
         ctx.extra["dedup_stress_programs"] = len(dd)
+    if ctx.prop == "C04":
+        # multipart family: long uploads with few distinct part sizes (recurring sizes, re-uploaded part numbers,
+        # part copies) for the -N ETag and the FULL_OBJECT / COMPOSITE checksum rules
+        mp = gen_programs(ctx, ctx.pick(15, 200), ctx.pick(32, 45),
+                          ["CreateBucket", "PutObject", "CreateUpload", "UploadPart", "UploadPartCopy", "CompleteUpload", "CopyObject",
+                           "AppendObject"], ctx.seed * 1000 + 44, "multipart",
+                          {"Blobs": '{"c1", "c2", "c3"}', "CTypes": '{"none"}', "MetaSets": '{"none"}', "TagSets": '{"none"}',
+                           "Classes": '{"none"}', "Conds": '{"none"}', "MaxParts": "5", "Keys": '{"k1", "k2"}', "Buckets": '{"b1"}',
+                           "OpBoost": '{"UploadPart", "CompleteUpload"}', "BoostFactor": "3"})
+        pf = ctx.path("programs-multipart.ndjson")
+        vlib.write_ndjson(pf, [{"id": 6000 + i, "calls": p} for i, p in enumerate(mp)])
+        tf = ctx.path("trace-multipart.ndjson")
+        ctx.run([drv, "run", stacks[0], ctx.path("state-multipart"), pf, tf], timeout=3000)
+        et = run_tv(ctx, tf, "multipart")
+        nterms += check_digests(ctx, drv, et, "multipart")
+        ctx.traces += len(mp)
+        ctx.evaluations += sum(len(p) for p in mp)
+    if ctx.prop == "C11":
+        # HTTP leg: the same kind of programs with PutObject / CopyObject sent as raw S3 requests through the real
+        # server handler (header parsing of protocol.go / copy.go: metadata, tagging and storage-class headers,
+        # metadata / tagging directives incl. their absent = COPY default)
+        hp = gen_programs(ctx, ctx.pick(25, 300), ctx.pick(25, 40), plan["ops"], ctx.seed * 1000 + 55, "http", plan.get("gen"))
+        pf = ctx.path("programs-http.ndjson")
+        vlib.write_ndjson(pf, [{"id": 4000 + i, "calls": p} for i, p in enumerate(hp)])
+        tf = ctx.path("trace-http.ndjson")
+        ctx.run([drv, "run", stacks[0], ctx.path("state-http"), pf, tf], timeout=3000, env={"VERIF_HTTP_FRONT": "1"})
+        run_tv(ctx, tf, "http")
+        ctx.traces += len(hp)
+        ctx.evaluations += sum(len(p) for p in hp)
+        ctx.extra["http_front_programs"] = len(hp)
+        sc = situation_cover_programs(ctx, rnd, ["CreateBucket", "PutVersioning", "PutObject", "DeleteObject", "CopyObject"]
+                                      + ([] if ctx.quick() else ["AppendObject", "PutTagging"]), ctx.pick(250, 3000), 5)
+        pf = ctx.path("programs-sitcover.ndjson")
+        vlib.write_ndjson(pf, [{"id": 8000 + i, "calls": p} for i, p in enumerate(sc)])
+        tf = ctx.path("trace-sitcover.ndjson")
+        ctx.run([drv, "run", stacks[0], ctx.path("state-sitcover"), pf, tf], timeout=3000)
+        run_tv(ctx, tf, "sitcover")
+        ctx.traces += len(sc)
+        ctx.evaluations += sum(len(p) for p in sc)
     if ctx.prop == "C02":
         cov = cover_programs(ctx, rnd)
         pf = ctx.path("programs-cover.ndjson")
